@@ -212,18 +212,23 @@ def buildTree : Nat → Sym → List Prod → Option (PTree × List Prod)
           | some (t, ps') => (sons ss ps').map fun r => (t :: r.1, r.2)
       (sons p.2 rest).map fun r => (.node (.var v) r.1, r.2)
 
-/-- `get_llone_parse_tree(word)` -/
+/-- `get_llone_parse_tree(word)`: `none` = out of fuel, `some none` = NotParsableException.
+The start symbol is inspected first: on a grammar without start symbol the library raises
+NotParsableException (whatever the word), so the model answers `some none`. -/
 def parse (G : CFG) (w : List String) (fuel : Nat) : Option (Option PTree) :=
-  match table G fuel, G.start with
-  | some tb, some s =>
-    match parseLoop tb fuel [some (.var s), none] w [] with
+  match G.start with
+  | none => some none
+  | some s =>
+    match table G fuel with
     | none => none
-    | some none => some none
-    | some (some ps) =>
-      match buildTree fuel (.var s) ps with
-      | some (t, []) => some (some t)
-      | _ => none
-  | _, _ => none
+    | some tb =>
+      match parseLoop tb fuel [some (.var s), none] w [] with
+      | none => none
+      | some none => some none
+      | some (some ps) =>
+        match buildTree fuel (.var s) ps with
+        | some (t, []) => some (some t)
+        | _ => none
 
 end LL1Lib
 end Pfl
